@@ -530,8 +530,34 @@ func (e *SpecEnv) sortOfType(t types.Type) string {
 }
 
 // quant handles forall(i, lo, hi, body) over integers and forall(T(k), body) over a type.
-func (e *SpecEnv) quant(kind string, x *ast.CallExpr) *Val {
+func (e *SpecEnv) quant(kind string, x0 *ast.CallExpr) *Val {
 	u := e.fr.u
+	// trailing trigger(e1, e2...) arguments give the instantiation patterns
+	xc := *x0
+	x := &xc
+	var trigExprs [][]ast.Expr
+	for len(x.Args) > 0 {
+		ce, ok := x.Args[len(x.Args)-1].(*ast.CallExpr)
+		if !ok || exprText(ce.Fun) != "trigger" {
+			break
+		}
+		trigExprs = append(trigExprs, ce.Args)
+		x.Args = x.Args[:len(x.Args)-1]
+	}
+	withPat := func(n *SpecEnv, body string) string {
+		if len(trigExprs) == 0 {
+			return body
+		}
+		var pats []string
+		for _, tg := range trigExprs {
+			var ts []string
+			for _, t := range tg {
+				ts = append(ts, n.fr.termOf(n.eval(t)))
+			}
+			pats = append(pats, ":pattern ("+strings.Join(ts, " ")+")")
+		}
+		return "(! " + body + " " + strings.Join(pats, " ") + ")"
+	}
 	if len(x.Args) == 4 {
 		id, ok := x.Args[0].(*ast.Ident)
 		if !ok {
@@ -544,7 +570,7 @@ func (e *SpecEnv) quant(kind string, x *ast.CallExpr) *Val {
 		body := n.eval(x.Args[3])
 		rng := fmt.Sprintf("(and (<= %s %s) (< %s %s))", lo.S, bv, bv, hi.S)
 		if kind == "forall" {
-			return &Val{T: boolT, S: fmt.Sprintf("(forall ((%s Int)) (=> %s %s))", bv, rng, body.S)}
+			return &Val{T: boolT, S: fmt.Sprintf("(forall ((%s Int)) %s)", bv, withPat(n, "(=> "+rng+" "+body.S+")"))}
 		}
 		return &Val{T: boolT, S: fmt.Sprintf("(exists ((%s Int)) (and %s %s))", bv, rng, body.S)}
 	}
@@ -581,7 +607,7 @@ func (e *SpecEnv) quant(kind string, x *ast.CallExpr) *Val {
 		body := n.eval(x.Args[len(x.Args)-1])
 		g := and(guards...)
 		if kind == "forall" {
-			return &Val{T: boolT, S: fmt.Sprintf("(forall (%s) %s)", strings.Join(binders, " "), implies(g, body.S))}
+			return &Val{T: boolT, S: fmt.Sprintf("(forall (%s) %s)", strings.Join(binders, " "), withPat(n, implies(g, body.S)))}
 		}
 		return &Val{T: boolT, S: fmt.Sprintf("(exists (%s) %s)", strings.Join(binders, " "), and(g, body.S))}
 	}
